@@ -40,8 +40,9 @@ CLAIMS = {
               'random histories over 14 operation kinds and all option combinations are compared with a dict after EVERY step '
               '(has/get/bulk/uneven bulk streams/meta/list/count/NotExistent, raw reader, validate). COMPOSED: C02_any_history_is_a_map (History.history_refines) - ANY finite '
               'sequence of add / pack / direct-to-pack / import / delete / clean / repack programs, each run from the world the previous one left, ends in a world '
-              'satisfying the invariant in which EVERY key reads back exactly what the fold of the map updates holds. PARTIAL: loosen_object and '
-              'pack roll-over inside one call are not operations of that theorem (decided by the histories).'),
+              'satisfying the invariant in which EVERY key reads back exactly what the fold of the map updates holds. Corollaries: C02_loosen_changes_no_view, '
+              'C05_pack_all_loose_over_any_number_of_packs. PARTIAL: which pack each object of a rolling-over call goes to is the oracle of that theorem '
+              '(modelled by Layout.segs / PickPack.pick and tied by correspondence, not composed into it).'),
         design='4/C02'),
     'C03': dict(
         technique='Coq: invariant proved at every crash point of every history of operation programs + sound boolean checker + verified trace monitor run on implementation traces; independent raw reader',
